@@ -108,6 +108,8 @@ type delivery struct {
 	msg  int
 	to   int
 	done bool
+	// dropped: lost in transit (DROP deviation, scripted adversary); retx: the loss was made up for by a retransmission.
+	dropped, retx bool
 }
 
 type netw struct {
@@ -250,6 +252,17 @@ func (nw *netw) defaultAction() (string, func() string) {
 			return fmt.Sprintf("D:%d>%d(%s %d/%d %s from n%d)", d.msg, d.to, m.kind, m.h, m.r, h8(append([]byte(m.target), m.ph.Header.Hash...)), m.from), func() string { return nw.deliver(d) }
 		}
 	}
+	// Loss with retransmission: once nothing else is in flight, a message lost by a DROP deviation is sent again
+	// (each loss is made up for once).
+	for _, d := range nw.queue {
+		if d.dropped && !d.retx {
+			d.retx = true
+			nd := &delivery{msg: d.msg, to: d.to}
+			nw.queue = append(nw.queue, nd)
+			m := nw.msgs[nd.msg]
+			return fmt.Sprintf("RETX:%d>%d(%s %d/%d %s from n%d)", nd.msg, nd.to, m.kind, m.h, m.r, h8(append([]byte(m.target), m.ph.Header.Hash...)), m.from), func() string { return nw.deliver(nd) }
+		}
+	}
 	for i, n := range nw.nodes {
 		if n.e == nil {
 			continue
@@ -327,6 +340,7 @@ func (nw *netw) deviation(op string) (res string, consumeDefault bool) {
 			for _, d := range nw.queue {
 				if !d.done {
 					d.done = true
+					d.dropped = true
 					return "dropped " + name, true
 				}
 			}
